@@ -151,6 +151,13 @@ class Feature(tuple, metaclass=abc.ABCMeta):
     def __hash__(self):
         return hash(self.__class__) ^ super().__hash__()
 
+    def __eq__(self, other: typing.Any) -> bool:
+        """Python-context identity - same feature type made of the same (recursively identical) terms."""
+        return other.__class__ is self.__class__ and super().__eq__(other)
+
+    def __ne__(self, other: typing.Any) -> bool:
+        return not Feature.__eq__(self, other)
+
     @abc.abstractmethod
     def accept(self, visitor: 'dsl.Feature.Visitor') -> None:
         """Visitor acceptor.
@@ -303,9 +310,9 @@ class Operable(Feature, metaclass=abc.ABCMeta):
 
     __hash__ = Feature.__hash__  # otherwise gets overwritten to None due to redefined __eq__
 
-    @featurize
-    def __eq__(self, other: 'dsl.Operable') -> 'Equal':
-        return Comparison.Pythonic(Equal, self, other)
+    def __eq__(self, other: 'dsl.Feature') -> 'Equal':
+        # not featurized - the proxy needs the actual feature (not just its operable) to tell the identity
+        return Comparison.Pythonic(Equal, self, cast(other))
 
     @featurize
     def __ne__(self, other: 'dsl.Operable') -> 'NotEqual':
@@ -783,14 +790,14 @@ class Comparison(Predicate):
 
         operator: type[Infix] = property(opermod.itemgetter(0))
         left: 'dsl.Operable' = property(opermod.itemgetter(1))
-        right: 'dsl.Operable' = property(opermod.itemgetter(2))
+        right: 'dsl.Feature' = property(opermod.itemgetter(2))
 
-        def __new__(cls, operator: type[Infix], left: 'dsl.Operable', right: 'dsl.Operable'):
+        def __new__(cls, operator: type[Infix], left: 'dsl.Operable', right: 'dsl.Feature'):
             return super().__new__(cls, operator, left, right)
 
         def __bool__(self):
             if self.operator is Equal:
-                return hash(self.left) == hash(self.right)
+                return Feature.__eq__(self.left, self.right)
             if self.operator is LessThan:
                 return repr(self.left) < repr(self.right)
             raise RuntimeError(f'Unexpected Pythonic comparison using {self.operator}')
@@ -809,7 +816,7 @@ class Comparison(Predicate):
             Returns:
                 Comparison instance.
             """
-            return self.operator(self.left, self.right)
+            return self.operator(self.left, self.right.operable)
 
     def __init__(self, *operands: 'dsl.Operable'):
         operands = [Operable.ensure_is(o) for o in operands]
@@ -864,7 +871,7 @@ class Equal(Comparison, Infix):
             This doesn't reflect mathematical commutativity - order of potential sub-expression
             operands matters.
         """
-        return hash(self.left) == hash(self.right)
+        return Feature.__eq__(self.left, self.right)
 
 
 class NotEqual(Comparison, Infix):
